@@ -99,6 +99,20 @@ CHECKS = {
               'not modify the program returned before; the cached standard form is bytewise identical before and after solve()/soc_solve(). '
               'The histories (which call sequences, which repetitions) come from TLC; idempotence is the spec invariant CacheCoherent.'),
         note='Two-process determinism (PYTHONHASHSEED variation) and exotic user dtypes/read-only arrays are not covered yet.'),
+    'C10': dict(
+        level='model_checking',
+        technique='TLC model checking of Curvature.tla (exhaustive over all chains <=3/<=5) + replay of every exported terminal state on every real atom in rsome.ro and rsome.dro with pinned-model value oracle',
+        design_ref='DESIGN.md 2.3, 5/C10',
+        text=('TLC enumerates chains of __neg__/__mul__/__rmul__/__add__/__radd__/__sub__/__rsub__/sum on an implementation-shaped transcription '
+              'of Convex, PerspConvex, PiecewiseConvex, ExpPiecewiseConvex, DecConvex, DecPerspConvex and of the comparison/objective paths '
+              '(operand on either side, equality, min/max), with ghost meaning K*f+c+t*T, and checks SignTracksCurvature, OffsetTracksMeaning, '
+              'AcceptIffConvex, TimelyReject, MeaningPreserved, BilinearRaises; every exported terminal state is built on 27 real atoms: '
+              'exception <=> ideal reject no later than st()/min()/max() and never a compiled program; accepted uses solve a pinned model whose '
+              'optimum must equal the closed-form value of the written relation.'),
+        note=('Trusted: TLC, float closed forms in harness/replay_curvature.py, HiGHS/ECOS within 1e-6/1e-5/5e-4 (10x margin, else inconclusive). '
+              'Bounded: scalars {-2,-1,0,1/2,1,2}, operands constant 1 and one scalar variable, chains <=5 checked, <=2 replayed exhaustively, '
+              'longer ones sampled by -simulate. Four defects repaired by fix: commits, three degenerate ones (zero multiples, numeric pieces) are '
+              'listed in KNOWN_FINDINGS.json with the spec predicates Known_k. sum() and xtype N objective findings are reported to C06.')),
     'C13': dict(
         level='model_checking',
         technique='TLC model checking of Partition.tla + replay of every exported history into rsome.dro + TLC trace validation',
